@@ -1,8 +1,10 @@
 package rules
 
 import (
+	"go/constant"
 	"go/token"
 	"go/types"
+	"strings"
 
 	"golang.org/x/tools/go/ssa"
 
@@ -137,3 +139,243 @@ func ruleIndexedResultLengthChecked(c *report.Ctx, pkgs []string, floor int) {
 	}
 }
 
+// taskPush: a place where a background task is handed to the worker's queue.
+type taskPush struct {
+	Site ssa.Instruction
+	Kind string    // "import", "remove", or "?" when the kind is not fixed at the site
+	On   []an.Atom // what holds when this kind of task is the one sent (nil: the guards of the site)
+}
+
+// Guards: what is known to hold when this task is queued.
+func (tp taskPush) Guards(p *an.Prog) []an.Atom {
+	if tp.On != nil {
+		return tp.On
+	}
+	return p.GuardsOf(tp.Site)
+}
+
+// taskPushes: the places in f where a task is queued — a call of WalletTaskChan.PushImport / PushRemove (the reviewed
+// tree), or a send on WalletTaskChan.C written out in f (a generic Push(task) spliced in). The kind of a send is the
+// constant its task value was built with, or what the site's guards say about the task's type (`case
+// WalletTaskImport:` in the worker re-queues the task it received).
+func taskPushes(c *report.Ctx, f *ssa.Function) []taskPush {
+	p := c.P
+	var out []taskPush
+	if f == nil || f.Blocks == nil {
+		return nil
+	}
+	pi, pr := fnOpt(c, pkgWallet, "WalletTaskChan", "PushImport"), fnOpt(c, pkgWallet, "WalletTaskChan", "PushRemove")
+	tc := p.Type(pkgWallet, "WalletTaskChan")
+	kinds := map[string]string{}
+	for name, k := range map[string]string{"WalletTaskImport": "import", "WalletTaskRemove": "remove"} {
+		if o := p.Obj(pkgWallet, name); o != nil {
+			kinds[constString(o)] = k
+		}
+	}
+	if f.Signature.Recv() != nil && tc != nil {
+		if n := an.NamedOf(f.Signature.Recv().Type()); n != nil && n.Obj() == tc.Obj() {
+			return nil // the queue's own methods
+		}
+	}
+	type kindAt struct {
+		kind string
+		at   ssa.Instruction // the store that fixed the kind (nil: fixed by the site's guards)
+	}
+	// the constants stored into the type field of the task value that is sent (followed through whole-value copies)
+	kindsOf := func(v ssa.Value, site ssa.Instruction) []kindAt {
+		var out []kindAt
+		if ld, ok := v.(*ssa.UnOp); ok && ld.Op == token.MUL {
+			a, _ := ld.X.(*ssa.Alloc)
+			for depth := 0; a != nil && depth < 4; depth++ {
+				var next *ssa.Alloc
+				if a.Referrers() == nil {
+					break
+				}
+				for _, r := range *a.Referrers() {
+					switch x := r.(type) {
+					case *ssa.FieldAddr:
+						if an.FName(derefStructT(x.X.Type()), x.Field) != "taskType" || x.Referrers() == nil {
+							continue
+						}
+						for _, rr := range *x.Referrers() {
+							if st, isSt := rr.(*ssa.Store); isSt && st.Addr == ssa.Value(x) {
+								if k := foldConst(st.Val, 0); k != nil {
+									if kind, ok := kinds[k.ExactString()]; ok {
+										out = append(out, kindAt{kind, st})
+									}
+								}
+							}
+						}
+					case *ssa.Store:
+						if x.Addr == ssa.Value(a) {
+							if src, isLd := x.Val.(*ssa.UnOp); isLd && src.Op == token.MUL {
+								if b, isAlloc := src.X.(*ssa.Alloc); isAlloc {
+									next = b
+								}
+							}
+						}
+					}
+				}
+				if len(out) > 0 || next == nil {
+					break
+				}
+				a = next
+			}
+		}
+		if len(out) > 0 {
+			return out
+		}
+		// handed on: what the guards say about the type of the task in hand
+		for _, g := range p.GuardsOf(site) {
+			if g.Op != token.EQL || g.X == nil || g.Y == nil || !strings.HasSuffix(p.Desc(g.X), "taskType") {
+				continue
+			}
+			if k := foldConst(g.Y, 0); k != nil {
+				if kind, ok := kinds[k.ExactString()]; ok {
+					return []kindAt{{kind, nil}}
+				}
+			}
+		}
+		return []kindAt{{"?", nil}}
+	}
+	kindOf := func(v ssa.Value, site ssa.Instruction) string {
+		ks := kindsOf(v, site)
+		if len(ks) == 1 {
+			return ks[0].kind
+		}
+		return "?"
+	}
+	an.Instrs(f, func(in ssa.Instruction) {
+		if cc := an.CallOf(in); cc != nil && cc.StaticCallee() != nil {
+			switch cc.StaticCallee() {
+			case pi:
+				if pi != nil {
+					out = append(out, taskPush{Site: in, Kind: "import"})
+				}
+			case pr:
+				if pr != nil {
+					out = append(out, taskPush{Site: in, Kind: "remove"})
+				}
+			}
+		}
+		var ch, val ssa.Value
+		switch x := in.(type) {
+		case *ssa.Select:
+			for _, st := range x.States {
+				if st.Send != nil {
+					ch, val = st.Chan, st.Send
+				}
+			}
+		case *ssa.Send:
+			ch, val = x.Chan, x.X
+		}
+		if ch == nil {
+			return
+		}
+		ld, ok := ch.(*ssa.UnOp)
+		if !ok || tc == nil || !isFieldLoad(ld, tc, "C") {
+			return
+		}
+		// a task chosen on several paths and queued once (`task, ok := unfinished(ws); if ok { push(task) }`): one push
+		// per way the task was chosen, under what held on that way; a way whose `ok` is false does not get here
+		if ph, isPhi := val.(*ssa.Phi); isPhi {
+			site := p.GuardsOf(in)
+			for i, e := range ph.Edges {
+				dead := false
+				for _, g := range site {
+					fl, isFl := g.X.(*ssa.Phi)
+					if g.Op != token.ILLEGAL || !isFl || fl.Block() != ph.Block() || i >= len(fl.Edges) {
+						continue
+					}
+					if k := foldConst(fl.Edges[i], 0); k != nil && k.Kind() == constant.Bool && constant.BoolVal(k) != g.Truth {
+						dead = true
+					}
+				}
+				if dead {
+					continue
+				}
+				pred := ph.Block().Preds[i]
+				on := append(append([]an.Atom{}, p.GuardsOnEdge(pred, ph.Block())...), site...)
+				out = append(out, taskPush{Site: in, Kind: kindOf(e, in), On: on})
+			}
+			return
+		}
+		// a task value filled in on several paths (a result variable of a spliced helper) and queued once: one push per
+		// filling, under what held there
+		if ks := kindsOf(val, in); len(ks) > 1 {
+			for _, ka := range ks {
+				on := append(append([]an.Atom{}, p.GuardsOf(ka.at)...), p.GuardsOf(in)...)
+				out = append(out, taskPush{Site: in, Kind: ka.kind, On: on})
+			}
+			return
+		}
+		kind := kindOf(val, in)
+		if kind == "?" {
+			// the task in hand is queued again under a verdict merged from the kinds' own verdicts
+			// (`done := run(task); if !done { push(task) }`): one push per way the verdict came out so, with the kind
+			// the guards of that way name
+			split := false
+			for _, g := range p.GuardsOf(in) {
+				fl, isFl := g.X.(*ssa.Phi)
+				if g.Op != token.ILLEGAL || !isFl {
+					continue
+				}
+				for i, e := range fl.Edges {
+					if k := foldConst(e, 0); k != nil && k.Kind() == constant.Bool && constant.BoolVal(k) != g.Truth {
+						continue
+					}
+					if i >= len(fl.Block().Preds) {
+						continue
+					}
+					on := append(append([]an.Atom{}, p.GuardsOnEdge(fl.Block().Preds[i], fl.Block())...), p.GuardsOf(in)...)
+					// what the value of the verdict on this way says, too (it is `!fin`, `err == nil`, …)
+					if cond, isB := e.(ssa.Value); isB {
+						if _, isK := e.(*ssa.Const); !isK {
+							on = append(on, p.MkAtom(cond, g.Truth, nil))
+						}
+					}
+					ek := "?"
+					for _, a := range on {
+						if a.Op != token.EQL || a.X == nil || a.Y == nil || !strings.HasSuffix(p.Desc(a.X), "taskType") {
+							continue
+						}
+						if k := foldConst(a.Y, 0); k != nil {
+							if kk, ok := kinds[k.ExactString()]; ok {
+								ek = kk
+							}
+						}
+					}
+					if ek != "?" {
+						out = append(out, taskPush{Site: in, Kind: ek, On: on})
+						split = true
+					}
+				}
+			}
+			if split {
+				return
+			}
+		}
+		out = append(out, taskPush{Site: in, Kind: kind})
+	})
+	return out
+}
+
+// pushesOf: the pushes of taskPushes(f) of one kind ("" = any).
+func pushesOf(c *report.Ctx, f *ssa.Function, kind string) []taskPush {
+	var out []taskPush
+	for _, tp := range taskPushes(c, f) {
+		if kind == "" || tp.Kind == kind {
+			out = append(out, tp)
+		}
+	}
+	return out
+}
+
+// pushSites: their sites.
+func pushSites(c *report.Ctx, f *ssa.Function, kind string) []ssa.Instruction {
+	var out []ssa.Instruction
+	for _, tp := range pushesOf(c, f, kind) {
+		out = append(out, tp.Site)
+	}
+	return out
+}
